@@ -284,6 +284,13 @@ def verify_c11(ctx, repo, prop="C11"):
 
 def verify_c12(ctx, repo, prop="C12"):
     dsl.verify(ctx, repo, dsl.Registry(), prop, PT + ".get_clone_table", h_clone_table, expect_covers=["clone-table.clone", "clone-table.outlier"])
+    # the archive pairs a results table with "the accompanying Newick tree": both must come from the same tree (the ranking obligations stay with C11)
+    prev = getattr(ctx, "vc_filter", None)
+    ctx.vc_filter = lambda name, kind: kind == "safety" or "table-of-that-tree" in name or "newick-of-that-tree" in name or "two-members" in name
+    try:
+        dsl.verify(ctx, repo, dsl.Registry(), prop, PT + ".create_topologies_archive", h_archive, expect_covers=["archive.empty", "archive.included", "archive.excluded"])
+    finally:
+        ctx.vc_filter = prev
 
 
 def h_archive(I, fi):
